@@ -89,6 +89,34 @@ fn real_main(args: &[String]) -> i32 {
             };
             driver::check(s.as_ref(), &opts)
         }
+        Some("hashes") => {
+            let seed = std::env::var("VERIF_SEED").ok().and_then(|s| s.trim().parse::<u64>().ok()).unwrap_or(driver::DEFAULT_SEED);
+            let id = args.get(1).cloned().unwrap_or_default();
+            let s = match scns.iter().find(|s| s.id() == id) {
+                Some(s) => s,
+                None => return 2,
+            };
+            let from: u64 = args.get(2).and_then(|s| s.parse().ok()).unwrap_or(0);
+            let to: u64 = args.get(3).and_then(|s| s.parse().ok()).unwrap_or(0);
+            let jobs: usize = flag(args, "--jobs").and_then(|s| s.parse().ok()).unwrap_or(1);
+            match driver::hashes(s.as_ref(), seed, from, to, jobs) {
+                Ok(v) => {
+                    for (i, h) in v {
+                        println!("{} {} {}", id, i, h);
+                    }
+                    0
+                }
+                Err(e) => {
+                    eprintln!("HARNESS ERROR: {}", e);
+                    2
+                }
+            }
+        }
+        Some("selftest") => {
+            let seed = std::env::var("VERIF_SEED").ok().and_then(|s| s.trim().parse::<u64>().ok()).unwrap_or(driver::DEFAULT_SEED);
+            let n: u64 = flag(args, "--seeds").and_then(|s| s.parse().ok()).unwrap_or(400);
+            driver::selftest_determinism(&scns, seed, n)
+        }
         Some("replay") => match args.get(1) {
             Some(p) => driver::replay(&scns, std::path::Path::new(p)),
             None => {
